@@ -582,7 +582,11 @@ class Evaluator:
         elif isinstance(target, ast.Subscript):
             container = self.eval(target.value)
             key = self._slice(target.slice)
-            if isinstance(container, (list, dict)):
+            if isinstance(container, list) and isinstance(key, slice) and key == slice(None, None, None) and isinstance(value, Sym):
+                # a[:] = v with an opaque array v on a concrete list: numpy's element-wise copy - the list object stays, its content is v's
+                for k_ in range(len(container)):
+                    container[k_] = Sym(f"{value.name}[{k_}]")
+            elif isinstance(container, (list, dict)):
                 try:
                     container[key] = value
                 except IndexError:
